@@ -540,7 +540,11 @@ func (c *compiler) compile(tok *token) []instruction {
 			types = append(types, t)
 		}
 		for _, arg := range tok.Tokens[funcArguments].Tokens {
-			c.Locals.Index(arg.Text)
+			key := arg.Text
+			if key == "_" { // every parameter has a slot of its own, blank ones too
+				key = arg.Pos.String()
+			}
+			c.Locals.Index(key)
 		}
 		if arguments > 0 && tok.Tokens[funcArguments].Tokens[arguments-1].Tokens[0].Text == "..." {
 			arguments = -arguments
